@@ -194,7 +194,7 @@ def dedup_set_discipline(tree, rep, rule):
         raise AnalysisError("Mailbox._processed has fewer writers than expected")
 
 
-def r4_r5(tree, prog, rep):
+def echo_filter(prog, rep, rule="C02.R4"):
     M = prog.machine("Mailbox")
     rx = M.methods.get("rx_message")
     if rx is None:
@@ -210,9 +210,15 @@ def r4_r5(tree, prog, rep):
           and bool(tests) and all(None not in truth_on_branch(t, same_side) for t in tests)
           and not g.only_when(ours_n, same_side, True) and not g.only_when(theirs_n, same_side, False)
           and "side" in params(rx) and not local_defs(rx, "side"))
-    rep.check("C02.R4", "Mailbox.rx_message: side == self._side (and nothing else) decides echo vs. peer message", ok,
-              site(rx, M.file), key="C02.R4:Mailbox.rx_message",
-              what="a message carrying our own side can be treated as a peer message (reflection), or the test is not a plain side comparison")
+    rep.check(rule, "Mailbox.rx_message: side == self._side (and nothing else) decides echo vs. peer message", ok,
+              site(rx, M.file), key="%s:Mailbox.rx_message" % rule,
+              what="a message carrying our own side can be treated as a peer message (reflection; after a re-open every replayed echo of a retired "
+                   "phase would be decrypted as the peer's and end the session), or the test is not a plain side comparison")
+
+
+def r4_r5(tree, prog, rep):
+    M = prog.machine("Mailbox")
+    echo_filter(prog, rep)
     for r in M.rows_on("rx_message_ours"):
         cs = row_calls(M, r)
         bad = [c for c in cs if c.startswith("self._O.") or c.startswith("self._R.") or c.startswith("self._N.")]
